@@ -194,7 +194,7 @@ class SimpleMultiFilePersistentFixedLengthBytesArray(collections.abc.Sequence):
         if index >= len(self) or index < -len(self):
             raise IndexError("Array index out of range")
 
-        ret = self._get_bytes_by_index(index)
+        ret = self._get_bytes_by_index(index % len(self))
         return ret
 
     def __setitem__(self,
